@@ -29,12 +29,43 @@ type adversary struct {
 	blocks []*hotstuff.Block // blocks crafted by the adversary
 	lies   map[hotstuff.Hash]*hotstuff.Block
 	fz     *fuzzer
+	seen   map[hotstuff.View]*hotstuff.Block // proposals of honest leaders seen by a Byzantine replica, by view
+	ll     *lockless
+}
+
+// lockless is a directed attack on the lock ("vote without being able to lock"): the Byzantine replica Z leads every
+// view but the second, and the scheduler (which is the adversary's) takes down the victim's links at two moments.
+//
+//	view 1  Z proposes B1 to C and W only
+//	view 2  the honest leader C certifies B1 and proposes B2; the victim V is cut off and misses it
+//	        V (links up) is shown the certificate for B2, fetches B2 - only B2 - and enters view 3
+//	view 3  V (links down again) gets B3 on top of B2: it can evaluate the vote rule, but cannot fetch B1
+//	view 4  C gets B4 and commits B1; V and W get X4 on top of genesis, later X5, X6, X7
+//
+// If V voted for B3 without locking B1 it votes for X4 as well, and V and W commit X4.
+type lockless struct {
+	z, c, v, w2 hotstuff.ID
+	phase       int
+	b           map[string]*hotstuff.Block
+	at          time.Duration
 }
 
 func newAdversary(w *World) *adversary {
 	a := &adversary{w: w, lies: map[hotstuff.Hash]*hotstuff.Block{}}
 	if len(w.plan.Inject) > 0 {
 		a.fz = newFuzzer(w)
+	}
+	a.seen = map[hotstuff.View]*hotstuff.Block{}
+	for _, b := range w.plan.Byz {
+		if b.Kind == "script" && has(b.Acts, "lockless") && w.plan.N == 4 && a.ll == nil {
+			ll := &lockless{z: hotstuff.ID(b.ID), b: map[string]*hotstuff.Block{}}
+			ll.c, ll.v, ll.w2 = hotstuff.ID(w.plan.knob("llC", 0)), hotstuff.ID(w.plan.knob("llV", 0)), hotstuff.ID(w.plan.knob("llW", 0))
+			if ll.c == 0 || ll.v == 0 || ll.w2 == 0 {
+				continue
+			}
+			a.ll = ll
+			w.after(time.Millisecond, "lockless", func() { a.locklessStep() })
+		}
 	}
 	w.hooks.onHandle = append(w.hooks.onHandle, func(nd *Node, ev any) {
 		if nd.honest {
@@ -44,6 +75,9 @@ func newAdversary(w *World) *adversary {
 		case hotstuff.ProposeMsg:
 			if e.Block != nil {
 				a.learnQC(e.Block.QuorumCert())
+				if p := w.primary(int(e.ID)); p != nil && p.honest {
+					a.seen[e.Block.View()] = e.Block
+				}
 			}
 			if e.AggregateQC != nil {
 				a.aggs = append(a.aggs, *e.AggregateQC)
@@ -62,6 +96,138 @@ func newAdversary(w *World) *adversary {
 		}
 	})
 	return a
+}
+
+// certify builds a certificate for b from the Byzantine replica's own signature and the honest votes it was sent.
+func (a *adversary) certify(nd *Node, b *hotstuff.Block) (hotstuff.QuorumCert, bool) {
+	own := a.ownSig(nd, b.ToBytes())
+	if own == nil {
+		return hotstuff.QuorumCert{}, false
+	}
+	parts := []hotstuff.PartialCert{hotstuff.NewPartialCert(own, b.Hash())}
+	got := map[hotstuff.ID]bool{nd.id: true}
+	for _, v := range a.votes {
+		if v.BlockHash() != b.Hash() || v.Signature() == nil || v.Signature().Participants().Len() != 1 || got[v.Signer()] {
+			continue
+		}
+		if !a.w.orc.honestSigned(v.Signer(), b.ToBytes()) {
+			continue
+		}
+		got[v.Signer()] = true
+		parts = append(parts, v)
+	}
+	if len(parts) < quorumOf(a.w.plan.N) {
+		return hotstuff.QuorumCert{}, false
+	}
+	qc, err := nd.auth.CreateQuorumCert(b, parts[:quorumOf(a.w.plan.N)])
+	return qc, err == nil
+}
+
+func (a *adversary) locklessStep() {
+	w, ll := a.w, a.ll
+	if w.ended || w.viol != nil || ll.phase > 8 {
+		return
+	}
+	defer w.after(500*time.Microsecond, "lockless", func() { a.locklessStep() })
+	nd := w.primary(int(ll.z))
+	if nd == nil || nd.crashed {
+		return
+	}
+	link := func(x, y hotstuff.ID, up bool) {
+		until := time.Duration(1 << 60)
+		if up {
+			until = 0
+		}
+		w.net.linkDown[[2]int{int(x), int(y)}] = until
+		w.net.linkDown[[2]int{int(y), int(x)}] = until
+	}
+	cut := func(up bool) {
+		link(ll.v, ll.c, up)
+		link(ll.v, ll.w2, up)
+		if up {
+			w.fault("attack:victim-links-up")
+		} else {
+			w.fault("attack:victim-links-down")
+		}
+	}
+	mk := func(name string, parent *hotstuff.Block, qc hotstuff.QuorumCert, view hotstuff.View) *hotstuff.Block {
+		a.ctr++
+		batch := &clientpb.Batch{Commands: []*clientpb.Command{{ClientID: 7300, SequenceNumber: a.ctr, Data: []byte(name)}}}
+		b := hotstuff.NewBlock(parent.Hash(), qc, batch, view, ll.z)
+		w.reg.add(b, nd)
+		ll.b[name] = b
+		return b
+	}
+	propose := func(b *hotstuff.Block, to ...hotstuff.ID) {
+		for _, id := range to {
+			a.sendTo(nd, id, "propose", hotstuff.ProposeMsg{ID: ll.z, Block: b})
+		}
+	}
+	newView := func(qc hotstuff.QuorumCert, to ...hotstuff.ID) {
+		for _, id := range to {
+			a.sendTo(nd, id, "newview", hotstuff.NewViewMsg{ID: ll.z, SyncInfo: hotstuff.NewSyncInfoWith(qc), FromNetwork: true})
+		}
+	}
+	g := hotstuff.GetGenesis()
+	gqc := hotstuff.NewQuorumCert(nil, 0, g.Hash())
+	switch ll.phase {
+	case 0:
+		cut(false)
+		b1 := mk("B1", g, gqc, 1)
+		propose(b1, ll.c, ll.w2)
+		a.sendTo(nd, ll.c, "vote", hotstuff.VoteMsg{ID: ll.z, PartialCert: hotstuff.NewPartialCert(a.ownSig(nd, b1.ToBytes()), b1.Hash())})
+		ll.phase = 1
+		a.fired("lockless")
+	case 1:
+		b2 := a.seen[2]
+		if b2 == nil || b2.Parent() != ll.b["B1"].Hash() {
+			return
+		}
+		qc2, ok := a.certify(nd, b2)
+		if !ok {
+			return
+		}
+		ll.b["B2"] = b2
+		cut(true)
+		newView(qc2, ll.v)
+		ll.at = w.now()
+		ll.phase = 2
+	case 2:
+		if w.now()-ll.at < 2*time.Millisecond {
+			return
+		}
+		cut(false)
+		b2 := ll.b["B2"]
+		qc2, _ := a.certify(nd, b2)
+		propose(mk("B3", b2, qc2, 3), ll.v, ll.c)
+		ll.phase = 3
+	case 3:
+		qc3, ok := a.certify(nd, ll.b["B3"])
+		if !ok {
+			return
+		}
+		propose(mk("B4", ll.b["B3"], qc3, 4), ll.c)
+		newView(qc3, ll.v, ll.w2)
+		ll.at = w.now()
+		ll.phase = 4
+	case 4:
+		if w.now()-ll.at < 2*time.Millisecond {
+			return
+		}
+		propose(mk("X4", g, gqc, 4), ll.v, ll.w2)
+		ll.phase = 5
+	case 5, 6, 7:
+		prev := ll.b[fmt.Sprintf("X%d", ll.phase-1)]
+		qc, ok := a.certify(nd, prev)
+		if !ok {
+			return
+		}
+		propose(mk(fmt.Sprintf("X%d", ll.phase), prev, qc, hotstuff.View(ll.phase)), ll.v, ll.w2)
+		ll.phase++
+	case 8:
+		w.probe("attack:lockless-completed")
+		ll.phase = 9
+	}
 }
 
 func (a *adversary) learnQC(qc hotstuff.QuorumCert) {
